@@ -306,6 +306,10 @@ class ExecImpl:
                 if kind == "maxdepth":
                     mx.set_recursion(int(op[1]))
                     return "ok"
+                if kind == "recalc":
+                    # the recalculation option (reset by `close_all` when the world is closed)
+                    mx.set_recalc(op[1] == "on")
+                    return "ok"
                 if kind == "admin":
                     return self.admin(op[1])
                 if kind == "obs":
